@@ -1130,12 +1130,24 @@ fn generate_function_out_trampoline_body(
     // Add arguments for passing global variable references into subfunctions
     append_arguments_for_globals(&mut params, id, context);
 
+    // The parameters of a template instantiation are never deduced so name the instantiation explicitly
+    let template_args = if let Some(template_instantiation_data) = context
+        .module
+        .function_registry
+        .get_template_instantiation_data(id)
+    {
+        let template_args = template_instantiation_data.template_args.clone();
+        generate_template_type_args(&template_args, context)?
+    } else {
+        Vec::new()
+    };
+
     {
         let expr = ast::Expression::Call(
             Box::new(Located::none(ast::Expression::Identifier(
                 ast::ScopedIdentifier::trivial(name),
             ))),
-            Vec::new(),
+            template_args,
             params,
         );
         statements.push(ast::Statement {
